@@ -40,7 +40,14 @@ def role_overflow(sk, leaf, ob):
     return "overflow" in (leaf.get("msg") or "").lower() or "overflow" in (ob.get("why") or "").lower()
 
 
+def role_unmerged_marker(sk, leaf, ob):
+    """the harness marked the explored line order as one in which two same-day same-kind trade lines of one security are
+    separated by another line after the date sort (computed from the actual order, see relational.rs `unmerged`)"""
+    return "~unmerged" in ob["n"]
+
+
 ROLES = {
+    "unmerged-same-day-lines": role_unmerged_marker,
     "nonadjacent-same-day-lots": role_nonadjacent_same_day_lots,
     "split-and-trade-same-day": role_split_and_trade_same_day,
     "decimal-overflow": role_overflow,
